@@ -611,6 +611,21 @@ def props_json(aobj, drop):
     return [[k, canonj(v)] for k, v in ep.items() if k not in drop]
 
 
+def is_limits_pair(dt):
+    from frappy.datatypes import LimitsType
+    return isinstance(dt, LimitsType)
+
+
+def datainfo_validate(dt):
+    """validate() as far as the described datainfo can express it.  A LimitsType is described as a plain tuple; its
+    additional order test (min <= max) is a dynamic-limit condition which the MODEL decides (pairInverted), so the
+    oracle handed to the model for `accept` is the tuple part only."""
+    from frappy.datatypes import TupleOf
+    if is_limits_pair(dt):
+        return lambda value, previous=None: TupleOf.validate(dt, value, previous)
+    return dt.validate
+
+
 def node_json(node, nodespec=None, classes=None):
     from frappy.params import Parameter, Command, Limit
     mods = []
@@ -638,6 +653,7 @@ def node_json(node, nodespec=None, classes=None):
                     'kind': 'param', 'attr': attr, 'exp': exp,
                     'limitHead': attr.rpartition('_')[0] if (isinstance(aobj, Limit) and ms is not None
                                                              and not (cfgover and 'export' in cfgover)) else None,
+                    'isLimitsPair': is_limits_pair(aobj.datatype),
                     'readonly': bool(aobj.readonly),
                     'constant': None if aobj.constant is None else canon(aobj.constant),
                     'value': canon(aobj.value), 'readerror': readerror_json(aobj),
@@ -823,11 +839,18 @@ def param_oracle(orc, box, modobj, mycls, attr, pobj, payload, kind, raws):
     if pobj.constant is not None:
         exp_safe(pobj.constant)
     if kind == 'change':
-        r = oracle_call(lambda: dt.validate(dt.import_value(payload), previous=cur))
+        r = oracle_call(lambda: datainfo_validate(dt)(dt.import_value(payload), previous=cur))
         orc.put('accept', [m, attr, canonj(payload), canon(cur)], orc.res(r))
         if r[0] == 'ok':
             v = r[1]
             exp_safe(v)
+            if is_limits_pair(dt):
+                try:
+                    lo, hi = v
+                    orc.put('split', [canon(v)], [canon(lo), canon(hi)])
+                    cmp_tables(orc, [lo, hi])
+                except Exception:
+                    pass
             r2 = oracle_call(dt.validate, v)
             orc.put('reval', [m, attr, canon(v)], orc.res(r2))
             if r2[0] == 'ok':
@@ -1105,6 +1128,8 @@ def run(ctx):
             kinds.add(c)
             if st['obs']['calls']:
                 res.count('driver.called.' + st['req'][0])
+            if st['req'][0] == 'change' and (st['req'][1] or '').endswith('_limits'):
+                res.count('limits-pair.' + (st['obs']['reply'][0] if st['obs']['reply'][0] != 'error' else st['obs']['reply'][1]))
         limit_used = bool(rec['oracle']['le']) or bool(rec['oracle']['chk'])
         res.count('oracle.limit-comparisons', len(rec['oracle']['le']))
         res.count('oracle.limit-comparisons.false', sum(1 for r in rec['oracle']['le'] if r[-1] is False))
